@@ -203,3 +203,20 @@ def run(F, S, R, tier):
     R.guard("filter", block_filter)
     import common as _common
     _common.effects(R, F, ['commitments'])
+
+
+    # the chain-root MMR nodes are rewritten by every reorg (positions above the fork point): they must not be served from a store cache
+    def mmr_not_cached():
+        import re
+        adt = F.adt("ckb_store::cache::StoreCache")
+        gh = [b for b in F.bodies_of_crate("ckb_store") if re.search(r"store::ChainStore::get_header_digest$", b.path)]
+        if not adt or not gh:
+            R.bad("prov/mmr-node-uncached/anchor-lost", "StoreCache / ChainStore::get_header_digest not found", [])
+            return
+        R.fn(gh[0])
+        touches = [st for x in K.with_nested(gh[0]) for blk in x.blocks for st in blk["s"] if "StoreCache" in str(st)]
+        if touches or any("digest" in f["n"] or "mmr" in f["n"] for f in adt["variants"][0]["f"]):
+            R.bad("prov/mmr-node-uncached", "MMR nodes are read through a store cache: a reorg rewrites the positions above the fork point and nothing invalidates them", [gh[0].where()])
+        else:
+            R.ok("prov/mmr-node-uncached", "get_header_digest reads the column, no cache in between", [gh[0].where()])
+    R.guard("prov/mmr-node-uncached", mmr_not_cached)
